@@ -162,6 +162,11 @@ partial def parsePipe (env : Env) : Sexp → Option Obsv
   | .list [.atom "repeat", v] => (parseData v).map oRepeat
   | .list [.atom "start", v] => (parseData v).map oStart
   | .list [.atom "defer", p] => (parsePipe env p).map oDefer
+  | .list [.atom "observe_on_d", p] => (parsePipe env p).map oObserveOnD
+  | .list [.atom "subscribe_on_d", p] => (parsePipe env p).map oSubscribeOnD
+  | .list [.atom "interval_d"] => some (stdOp kId oIntervalD)        -- (the harness maps u64 ↦ item: one `map` layer)
+  | .list [.atom "timer_d"] => some (stdOp kId oTimerD)
+  | .list [.atom "delay0", p] => (parsePipe env p).map (stdOp kId)   -- delay.rs: sleep, then sink_next
   | .list [.atom "from_result_ok", v] => (parseData v).map oJust
   | .list [.atom "from_result_err", e] => e.asNat.map oError
   | .list (.atom "cold" :: tag :: evs) => do some (oScript (← tag.asNat) true (← evs.mapM parseEv))
@@ -410,6 +415,12 @@ def stepProg (env : Env) (w : World) : Sexp → Option (World × Env × Prog)
       | some (.publish _ _ _ conns) =>
         some (w, env, .cellRead conns false fun l => forEach l.toList subUnsub)
       | _ => none
+  -- C08, last clause: `n` tasks posted to a default scheduler; each runs inside `post` on the posting thread
+  -- (record `x(100+i):1`), then `post` returns (record `x(100+i):2`)
+  | .list [.atom "dpost", n] => do
+      let n ← n.asNat
+      some (w, env, forEach (List.range n) fun i =>
+        dPost (.probe ((100 + i) * 4 + 3) (.int 1) .done) ;; .probe ((100 + i) * 4 + 3) (.int 2) .done)
   | .list [.atom "drop"] => some (w, env, .done)
   | s@(.list (.atom "hnext" :: _)) => (parseAction env s).map fun a => (w, env, a 0)
   | s@(.list (.atom "hcomplete" :: _)) => (parseAction env s).map fun a => (w, env, a 0)
